@@ -150,3 +150,63 @@ benign("c16-benign-rename-sink-owner", ["C16"],
     [("jpeg/standard/huffman_encoder.go", "func (e *HuffmanEncoder) writeByte(b byte) error {", "func (e *HuffmanEncoder) emitStuffed(b byte) error {"),
      ("jpeg/standard/huffman_encoder.go", "e.writeByte(", "e.emitStuffed("),
      ("jpeg/standard/huffman_encoder.go", "e.writeByte(", "e.emitStuffed(")])
+# ---------------------------------------------------------------- C15
+brk("c15-gray-copies-whole-pix", ["C15"],
+    [("jpeg/extended/encoder_simple.go", "		pixelData = make([]byte, 0, width*height)\n		for y := bounds.Min.Y; y < bounds.Max.Y; y++ {\n			offset := typed.PixOffset(bounds.Min.X, y)\n			pixelData = append(pixelData, typed.Pix[offset:offset+width]...)\n		}\n",
+      "		pixelData = append([]byte(nil), typed.Pix...)\n")],
+    "STRIDE", "DecodeSimple")
+brk("c15-ycbcr-copies-luma-plane", ["C15"],
+    [("jpeg/extended/encoder_simple.go", "	case *image.YCbCr:\n		components = 3\n", "	case *image.YCbCr:\n		if len(typed.Cb) == 0 {\n			return append([]byte(nil), typed.Y...), width, height, 1, 8, nil\n		}\n		components = 3\n")],
+    "STRIDE", "DecodeSimple")
+benign("c15-benign-stride-field-instead-of-pixoffset", ["C15"],
+    [("jpeg/extended/encoder_simple.go", "			offset := typed.PixOffset(bounds.Min.X, y)\n", "			offset := (y-typed.Rect.Min.Y)*typed.Stride + (bounds.Min.X - typed.Rect.Min.X)\n")])
+# ---------------------------------------------------------------- C18
+brk("c18-lazy-table-in-package-var", ["C18"],
+    [("jpeg/baseline/decoder.go", "// Decode decodes JPEG Baseline data\nfunc Decode(jpegData []byte) (pixelData []byte, width, height, components int, err error) {\n",
+      "var clampTable []byte\n\n// Decode decodes JPEG Baseline data\nfunc Decode(jpegData []byte) (pixelData []byte, width, height, components int, err error) {\n	if clampTable == nil {\n		clampTable = make([]byte, 768)\n		for i := range clampTable {\n			clampTable[i] = byte(i)\n		}\n	}\n")],
+    "NO-GLOBAL-WRITE", "baseline.Decode")
+brk("c18-codec-remembers-last-quality", ["C18"],
+    [("jpeg/baseline/codec.go", "	quality := baselineParams.Quality\n", "	quality := baselineParams.Quality\n	c.quality = quality\n")],
+    "NO-RECEIVER-WRITE", "baseline.Codec")
+brk("c18-validate-assigns-unconditionally", ["C18"],
+    [("jpegls/nearlossless/parameters.go", "	if p.NEAR < 0 || p.NEAR > 255 {\n		p.NEAR = 3 // Reset to default\n	}\n", "	near := p.NEAR\n	if near < 0 || near > 255 {\n		near = 3 // Reset to default\n	}\n	p.NEAR = near\n")],
+    "PARAMS-RO", "Validate")
+brk("c18-encode-writes-back-into-parameters", ["C18"],
+    [("jpeg/baseline/codec.go", "	quality := baselineParams.Quality\n", "	quality := baselineParams.Quality\n	if parameters != nil {\n		parameters.SetParameter(\"effectiveQuality\", quality)\n	}\n")],
+    "PARAMS-RO", "baseline.Codec")
+brk("c18-parallel-frames", ["C18"],
+    [("rle/rle.go", "	frameCount := oldPixelData.FrameCount()\n	for i := 0; i < frameCount; i++ {\n		srcFrame, err := oldPixelData.GetFrame(i)\n		if err != nil {\n			return fmt.Errorf(\"failed to get frame %d: %w\", i, err)\n		}\n\n		var dstFrame []byte\n		if err := c.decodeFrame(",
+      "	frameCount := oldPixelData.FrameCount()\n	done := make(chan struct{})\n	go func() { close(done) }()\n	<-done\n	for i := 0; i < frameCount; i++ {\n		srcFrame, err := oldPixelData.GetFrame(i)\n		if err != nil {\n			return fmt.Errorf(\"failed to get frame %d: %w\", i, err)\n		}\n\n		var dstFrame []byte\n		if err := c.decodeFrame(")],
+    "NO-HIDDEN-CONCURRENCY", "rle")
+benign("c18-benign-validate-guard-rewritten", ["C18"],
+    [("jpegls/nearlossless/parameters.go", "	if p.NEAR < 0 || p.NEAR > 255 {\n		p.NEAR = 3 // Reset to default\n	}\n", "	switch {\n	case p.NEAR < 0, p.NEAR > 255:\n		p.NEAR = 3 // Reset to default\n	}\n")])
+# ---------------------------------------------------------------- C10
+brk("c10-skip-empty-frames-silently", ["C10"],
+    [("jpeg/baseline/codec.go", "		if len(frameData) == 0 {\n			return fmt.Errorf(\"frame %d pixel data is empty\", frameIndex)\n		}\n\n		// Encode using the baseline encoder", "		if len(frameData) == 0 {\n			continue\n		}\n\n		// Encode using the baseline encoder")],
+    "ORDER-FRAMES", "baseline.Codec")
+brk("c10-frame-loop-starts-at-one", ["C10"],
+    [("rle/rle.go", "	frameCount := oldPixelData.FrameCount()\n	for i := 0; i < frameCount; i++ {\n		srcFrame, err := oldPixelData.GetFrame(i)\n		if err != nil {\n			return fmt.Errorf(\"failed to get frame %d: %w\", i, err)\n		}\n\n		var dstFrame []byte\n		if err := c.decodeFrame(",
+      "	frameCount := oldPixelData.FrameCount()\n	for i := 1; i < frameCount; i++ {\n		srcFrame, err := oldPixelData.GetFrame(i)\n		if err != nil {\n			return fmt.Errorf(\"failed to get frame %d: %w\", i, err)\n		}\n\n		var dstFrame []byte\n		if err := c.decodeFrame(")],
+    "ORDER-FRAMES", "rle")
+brk("c10-merge-tile-part-appends-in-place", ["C10"],
+    [("jpeg2000/codestream/parser.go", "		merged := make([]byte, 0, len(existing.Data)+len(part.Data))\n		merged = append(merged, existing.Data...)\n		existing.Data = append(merged, part.Data...)\n", "		existing.Data = append(existing.Data, part.Data...)\n")],
+    "INPUT-RO", "mergeTilePart")
+brk("c10-decoder-sorts-input-in-place", ["C10"],
+    [("rle/rle.go", "func (c *Codec) decodeFrame(src []byte,", "func normaliseInput(b []byte) { sort.Slice(b, func(i, j int) bool { return b[i] < b[j] }) }\n\nfunc (c *Codec) decodeFrame(src []byte,"),
+     ("rle/rle.go", "import (\n", "import (\n	\"sort\"\n"),
+     ("rle/rle.go", "		var dstFrame []byte\n		if err := c.decodeFrame(srcFrame,", "		if len(srcFrame) > 1<<30 {\n			normaliseInput(srcFrame)\n		}\n		var dstFrame []byte\n		if err := c.decodeFrame(srcFrame,")],
+    "INPUT-RO", "normaliseInput")
+brk("c10-decoder-stops-resetting-bindings", ["C10"],
+    [("jpeg2000/decoder.go", "	d.bindings = nil\n", "")],
+    "CARRY", "bindings")
+brk("c10-encoder-accumulates-statistics-into-output", ["C10"],
+    [("jpeg2000/encoder.go", "	openJPEGMainHeaderBytes int\n", "	openJPEGMainHeaderBytes int\n	framesSeen              int\n"),
+     ("jpeg2000/encoder.go", "	e.openJPEGMainHeaderBytes = buf.Len()\n", "	e.framesSeen++\n	e.openJPEGMainHeaderBytes = buf.Len() + e.framesSeen\n")],
+    "CARRY", "framesSeen")
+brk("c10-map-iteration-order-reaches-output", ["C10"],
+    [("jpeg2000/t2/packet_encoder.go", "func (pe *PacketEncoder) encodeLRCP(maxLayers int) ([]Packet, error) {\n", "func (pe *PacketEncoder) precinctComponents() []int {\n	var out []int\n	for comp := range pe.precincts {\n		out = append(out, comp)\n	}\n	return out\n}\n\nfunc (pe *PacketEncoder) encodeLRCP(maxLayers int) ([]Packet, error) {\n	_ = pe.precinctComponents()\n")],
+    "MAP-RANGE", "precinctComponents")
+benign("c10-benign-frame-loop-body-extracted", ["C10"],
+    [("rle/rle.go", "		var dstFrame []byte\n		if err := c.decodeFrame(srcFrame, &dstFrame, frameInfo, parameters); err != nil {\n			return fmt.Errorf(\"failed to decode frame %d: %w\", i, err)\n		}\n",
+      "		dstFrame, err := c.decodeOne(srcFrame, frameInfo, parameters)\n		if err != nil {\n			return fmt.Errorf(\"failed to decode frame %d: %w\", i, err)\n		}\n"),
+     ("rle/rle.go", "func (c *Codec) decodeFrame(src []byte,", "func (c *Codec) decodeOne(src []byte, info *imagetypes.FrameInfo, p codec.Parameters) ([]byte, error) {\n	var dst []byte\n	if err := c.decodeFrame(src, &dst, info, p); err != nil {\n		return nil, err\n	}\n	return dst, nil\n}\n\nfunc (c *Codec) decodeFrame(src []byte,")])
